@@ -348,7 +348,7 @@ func oracleFilter(c *Case, direct []string, idx int, res *lib.Result) {
 	}
 	cmp := func(got []string, who string) {
 		report := func(clause string, v verdict, logged bool) {
-			res.Violate(lib.Violation{Clause: clause, Case: idx, Key: clause + ":" + who, Replay: c,
+			res.Violate(lib.Violation{Clause: clause, Case: idx, Key: clause + ":" + strings.Fields(who)[0], Replay: c,
 				Detail: fmt.Sprintf("%s, event %d: line %q with accept patterns %q and deny patterns %q in force: logged=%v, the rule says %v",
 					who, v.ev, v.line, v.acc, v.den, logged, v.want)})
 		}
@@ -384,12 +384,63 @@ func oracleFilter(c *Case, direct []string, idx int, res *lib.Result) {
 				report("filter-logged-a-forbidden-line", *f, true)
 				return
 			}
-			res.Violate(lib.Violation{Clause: "filter-passes-exactly", Case: idx, Key: "filter-passes-exactly:" + who, Replay: c,
+			res.Violate(lib.Violation{Clause: "filter-passes-exactly", Case: idx, Key: "filter-passes-exactly:" + strings.Fields(who)[0], Replay: c,
 				Detail: fmt.Sprintf("%s logged %q, which is not a received line at that point", who, got[ptr])})
 		}
 	}
-	if !hasDelete(c.Evs) {
+	if c.Stalled {
+		cmp(c.Out, fmt.Sprintf("FilterLines-with-stalled-consumer (log channel of %d, consumer not reading for %dms after %d lines)", c.Buf, c.StallMs, c.PauseAfter))
+	} else if !hasDelete(c.Evs) {
 		cmp(c.Out, "FilterLines")
 	}
 	cmp(direct, "Filter.Pass")
+}
+
+// ruleOutput: the lines the rule of the property lets through, for a history of events.
+func ruleOutput(evs []Ev) []string {
+	var acc, den []*regexp.Regexp
+	out := []string{}
+	any := func(rs []*regexp.Regexp, l string) bool {
+		for _, r := range rs {
+			if r.MatchString(l) {
+				return true
+			}
+		}
+		return false
+	}
+	for _, e := range evs {
+		switch e.A {
+		case "accept":
+			acc = append(acc, regexp.MustCompile(e.S))
+		case "deny":
+			den = append(den, regexp.MustCompile(e.S))
+		case "reset":
+			acc, den = nil, nil
+		case "del-accept":
+			acc = without(acc, e.S)
+		case "del-deny":
+			den = without(den, e.S)
+		case "":
+			if (len(acc) == 0 && len(den) == 0) || (!any(den, e.S) && any(acc, e.S)) {
+				out = append(out, e.S)
+			}
+		}
+	}
+	return out
+}
+
+// oracleCancelled: the context was cancelled while the consumer was not reading.  Cancellation is
+// the only legitimate reason for a permitted line not to arrive, and it ends the stream: what did
+// arrive must be a prefix of the permitted lines - in order, none duplicated, no gap - and must
+// contain at least the lines taken by the consumer before it paused.
+func oracleCancelled(c *Case, direct []string, idx int, res *lib.Result) {
+	want := ruleOutput(c.Evs)
+	bad := len(c.Out) > len(want) || len(c.Out) < c.PauseAfter
+	for i := 0; !bad && i < len(c.Out); i++ {
+		bad = c.Out[i] != want[i]
+	}
+	if bad {
+		res.Violate(lib.Violation{Clause: "filter-passes-exactly", Case: idx, Key: "filter-passes-exactly:FilterLines-cancelled", Replay: c,
+			Detail: fmt.Sprintf("context cancelled while the consumer paused: %d lines arrived %q, which is not a prefix of the %d permitted lines %q", len(c.Out), c.Out, len(want), want)})
+	}
 }
